@@ -8,7 +8,7 @@ echo "|---|---|---|---|" >> $OUT.tmp
 for s in seeded/*/; do
   n=$(basename $s)
   p=$(python3 -c "import json;print(json.load(open('$s/meta.json'))['property'])")
-  if ! grep -q "\"property_id\": \"$p\"" MANIFEST.json; then echo "| $n | $p | not claimed | |" >> $OUT.tmp; continue; fi
+  if ! python3 -c "import json,sys;sys.exit(0 if any(c['property_id']=='$p' for c in json.load(open('MANIFEST.json'))['checks']) else 1)"; then echo "| $n | $p | not claimed | |" >> $OUT.tmp; continue; fi
   D=$(mktemp -d /tmp/kgo.XXXX)
   rsync -a --exclude .git /repo/ "$D/"
   if ! (cd "$D" && patch -p1 -s < /verif/$s/patch.diff); then echo "| $n | $p | PATCH-FAILED | |" >> $OUT.tmp; rm -rf "$D"; continue; fi
